@@ -91,6 +91,7 @@ func Main(r *ev.Run, scenarios []Scenario, budget time.Duration, finish func(r *
 
 func worker(scenarios []Scenario, sh string, budget time.Duration) {
 	runtime.GOMAXPROCS(2)
+	vrt.DisableGC()
 	var i, k int
 	fmt.Sscanf(sh, "%d/%d", &i, &k)
 	deadline := time.Now().Add(budget)
@@ -156,7 +157,7 @@ func worker(scenarios []Scenario, sh string, budget time.Duration) {
 					}
 				}
 				if strings.Join(traces[0], "\n") != strings.Join(traces[1], "\n") {
-					res.Infra = fmt.Sprintf("scenario %s: two replays of one schedule produced different traces", sc.Name)
+					res.Infra = fmt.Sprintf("scenario %s: two replays of one schedule produced different traces:\n%s\n---\n%s", sc.Name, strings.Join(traces[0], "\n"), strings.Join(traces[1], "\n"))
 					return false
 				}
 				vio = &violation{Sig: f.Sig, Msg: f.Msg, Scenario: sc.Name, Choices: x.Choices, Trace: traces[0], Race: vrt.RaceEnabled}
